@@ -2,7 +2,7 @@ SPEC = {
     "id": "C10",
     "props_module": "NDB.Props.C10",
     "corr_modules": ["NDB.Corr.C10"],
-    "theorems": ["C10_exclusive", "C10_nolock_refuted", "C10_offline_nolock_refuted"],
+    "theorems": ["C10_exclusive", "C10_nolock_refuted", "C10_offline_nolock_refuted", "C10_locklate_refuted"],
     "allowed_axioms": [],
     "harness_pkg": "hx_conc",
     "harness_bin": "c10",
@@ -16,6 +16,12 @@ SPEC = {
         "of open handles, in-process handles and one handle in a child process)",
         "the OS advisory lock itself (flock via std File::try_lock on <ndb>.lock): exclusive between open file descriptions of one "
         "or several processes, released when the descriptor is closed or the process dies; this is trusted, not modelled further",
+        "a refused request must not touch the files (clause 2 of C10_exclusive; C10_locklate_refuted shows the theorem sees a lock taken "
+        "after open() has opened the files and cut the log's tail): checked on the real code (a) deterministically - while another handle "
+        "is open and idle the driver appends a partial record (frame header without body) to the .wal, as if that handle were in the "
+        "middle of an append, lets the other handle / the child process call open or vacuum, and requires .ndb and .wal to be byte-identical "
+        "before and after; (b) as a stream - a holder commits 150 (thorough 600) multi-record transactions while 3 threads and a child "
+        "process keep calling Db::open; every request must be refused and every acknowledged relationship present after close + reopen",
         "each API call is atomic at this level (calls are executed one at a time by the harness); interleavings inside a call "
         "are covered by the in-process writer mutex (C09/C35), not here",
     ],
